@@ -6,7 +6,8 @@ CONSTANT MaxLen
 
 Targets == UNION {[1..k -> Seg] : k \in 1..MaxLen}
 \* at most one ABS splice, and it only makes sense at the front (after the leading slashes)
-Sensible(s) == \A i \in DOMAIN s : s[i] = "ABS" => i = 1
+Sensible(s) == /\ \A i \in DOMAIN s : s[i] = "ABS" => i = 1
+               /\ \A i \in DOMAIN s : s[i] = "SIB" => i = Len(s)          \* a file name comes last
 Leads == {1, 2, 3, 4}
 Encs == {"plain", "pctdot", "pctslash", "mixedcase", "allpctslash", "dblpctdot", "dblpctslash", "dblboth",
          "fwdot", "fwboth", "leaderdot"}
